@@ -27,3 +27,8 @@ func (vx *Vaxis) VerifScreenLast() [][]Cell {
 
 // VerifCellSixel reports the unexported sixel flag of a cell.
 func VerifCellSixel(c Cell) bool { return c.sixel }
+
+// VerifSixelCell returns the cell Sixel.Draw puts under an image (only the
+// unexported sixel flag set), so that a harness can exercise the sixel branch
+// of the render loop without encoding an image.
+func VerifSixelCell() Cell { return Cell{sixel: true} }
